@@ -154,7 +154,7 @@ aproofs! { c08_alias_u8_l2 => 4, 7, [h_alias::<u8, 2>(true)]; }
 //@ besteffort: yes
 //@ prop: C08
 //@ tier: thorough
-//@ cap: 5400
+//@ cap: 1500
 //@ funcs: WeightedAliasIndex::<u8>::new; sample
 //@ bounds: every u8 weight vector of length 3; streams with both uniform draws accepted at the first word
 aproofs! { c08_alias_u8_l3 => 5, 7, [h_alias::<u8, 3>(true)]; }
@@ -171,7 +171,7 @@ aproofs! { c08_alias_i8_l3 => 5, 7, [h_alias::<i8, 3>(false)]; }
 //@ besteffort: yes
 //@ prop: C08
 //@ tier: thorough
-//@ cap: 3600
+//@ cap: 1500
 //@ funcs: WeightedAliasIndex::<u8>::new; weights()
 //@ bounds: every u8 weight vector of length 3
 aproofs! { c08_alias_weights_u8_l3 => 5, 1, [h_alias_weights::<u8, 3>()]; }
@@ -188,7 +188,7 @@ aproofs! { c08_alias_weights_u8_l2 => 4, 1, [h_alias_weights::<u8, 2>()]; }
 //@ besteffort: yes
 //@ prop: C08
 //@ tier: thorough
-//@ cap: 3600
+//@ cap: 1500
 //@ funcs: WeightedAliasIndex::<u16>::new
 //@ bounds: every u16 weight vector of length 4; table mass identity
 aproofs! { c08_alias_u16_l4 => 6, 7, [h_alias::<u16, 4>(false)]; }
@@ -197,7 +197,7 @@ aproofs! { c08_alias_u16_l4 => 6, 7, [h_alias::<u16, 4>(false)]; }
 //@ besteffort: yes
 //@ prop: C08
 //@ tier: thorough
-//@ cap: 3600
+//@ cap: 1500
 //@ funcs: WeightedAliasIndex::<u8>::new; sample
 //@ bounds: every u8 weight vector of length 4
 aproofs! { c08_alias_u8_l4 => 6, 7, [h_alias::<u8, 4>(true)]; }
@@ -206,7 +206,7 @@ aproofs! { c08_alias_u8_l4 => 6, 7, [h_alias::<u8, 4>(true)]; }
 //@ besteffort: yes
 //@ prop: C08
 //@ tier: thorough
-//@ cap: 3600
+//@ cap: 1500
 //@ funcs: WeightedAliasIndex::<u32>::new
 //@ bounds: every u32 weight vector of length 2 (len * w near the u32 limit); table mass identity
 aproofs! { c08_alias_u32_l2 => 4, 7, [h_alias::<u32, 2>(false)]; }
